@@ -202,9 +202,9 @@ Proof.
   vm_compute. repeat split; reflexivity.
 Qed.
 
-(* ================= what remains: loss in flight that the sender does not notice =================
-   "Whatever a node holds as its snapshot is a complete snapshot" is still false of the model for
-   one reason only that we know of: ELose removes a piece that is in flight (the tail of the
+(* ================= loss in flight that the sender does not notice =================
+   "Whatever a node holds as its snapshot is a complete snapshot" used to be false of the model for
+   one reason: ELose removes a piece that is in flight (the tail of the
    channel) and the sender sends the following pieces WITHOUT an EDrop at the sender in between
    (the D19 repair cancels the cursor at the disconnect notification; without the notification
    the cursor goes on).  Below: node 1 (re-elected, fresh cursor) sends pieces 0,1 (loop cut by
@@ -212,7 +212,11 @@ Qed.
    0, 8, 9 -> Corrupt.  With a real TCP connection data lost in flight implies a disconnect at
    the sender before anything is sent on a new connection, so this is a question about the
    environment (C14: one live connection per peer, disconnect notified before reconnect), not
-   about the serializer. *)
+   about the serializer.
+   Since setTransmissionData keeps a complete file only when it is a snapshot ahead of the node's
+   position, the spliced file is now dropped: node 3 keeps the store it had (None) and its state;
+   the former witness against [C09_stored_snapshot_never_corrupt_full] is gone and the statement is
+   now a theorem ([stored_snapshot_never_corrupt] of ProofsDumpBacked.v). *)
 Definition inflight_loss_trace : list event :=
   firstn 88 stale_cursor_trace ++
   [ETick 1 330 0 2 [] 9; ELose 1 3 1; ETick 1 345 0 30 [] 9;
@@ -224,14 +228,8 @@ Definition C09_stored_snapshot_never_corrupt_full : Prop :=
 
 Lemma inflight_loss_splices :
   exists g n3, run_trace cz ginit inflight_loss_trace = Some g /\ aget 3 (nodes g) = Some n3 /\
-    stored (sr n3) = Some (Corrupt 5) /\ applied n3 = 1 /\ map eidx (log n3) = [1].
+    stored (sr n3) = None /\ incoming (sr n3) = None /\ applied n3 = 1 /\ map eidx (log n3) = [1].
 Proof.
   eexists. eexists. split; [vm_compute; reflexivity|]. split; [vm_compute; reflexivity|].
   vm_compute. repeat split; reflexivity.
-Qed.
-
-Lemma stored_snapshot_never_corrupt_refuted : ~ C09_stored_snapshot_never_corrupt_full.
-Proof.
-  intros H. destruct inflight_loss_splices as (g & n3 & Hg & Hn & Hs & _).
-  exact (H cz inflight_loss_trace g 3 n3 Hg Hn 5 Hs).
 Qed.
